@@ -554,6 +554,12 @@ def cnorm_field(n):
 # ---------------------------------------------------------------------------
 # replace-order: acquire the new value of a field before releasing the old one
 
+def _is_slot(t, params):
+    """text of a storage slot outside the function: a struct field or the
+    target of a pointer parameter"""
+    return is_field_text(t) or (t.startswith("*") and t[1:] in params)
+
+
 REPLACE_SKIP = {"trait_clear", "has_traits_clear", "trait_dealloc",
                 "has_traits_dealloc", "PyInit_ctraits", "trait_traverse",
                 "has_traits_traverse"}
@@ -565,7 +571,9 @@ REPLACE_SKIP = {"trait_clear", "has_traits_clear", "trait_dealloc",
       "to its replacement is taken (the two can be the same object)")
 def replace_order(ctx, res):
     from ..csym import cached_paths
+    from .ctables import _owning_setters
     facts = get_cfacts(ctx)
+    setters = _owning_setters(facts)
     n_sites = 0
     for fname in facts.defined_functions():
         if fname in REPLACE_SKIP:
@@ -576,22 +584,42 @@ def replace_order(ctx, res):
         if paths is None:
             continue
         found = {}
+        twice = {}
         stores_seen = set()
+        params = {q.name for q in facts.params(fname)}
         for p in paths:
             rel = {}        # field text -> index of first release of old value
             inc = {}        # value text -> index of first INCREF
             stores = []
+            gone = {}       # field whose content was released and not replaced
             for i, it in enumerate(p.trace):
                 if it[0] == "call":
                     _, c, args, full, line, stmt = it
-                    if c in DECREF and args and is_field_text(args[0]):
+                    if c in DECREF and args and _is_slot(args[0], params):
                         rel.setdefault(args[0], (i, line))
+                        if args[0] in gone:
+                            k = _norm_key(fname, "field-released-twice",
+                                          args[0])
+                            twice.setdefault(k, (args[0], gone[args[0]],
+                                                 line, p))
+                        gone[args[0]] = line
                     elif c in INCREF and args:
                         inc.setdefault(args[0], i)
+                    elif c in setters and len(args) == 2 \
+                            and args[0].startswith("&"):
+                        # helper(&slot, v): INCREF v; slot = v; XDECREF old
+                        slot = args[0][1:]
+                        inc.setdefault(args[1], i)
+                        stores.append((i, slot, args[1], line))
+                        if slot in gone:
+                            k = _norm_key(fname, "field-released-twice", slot)
+                            twice.setdefault(k, (slot, gone[slot], line, p))
+                        gone.pop(slot, None)
                 elif it[0] == "store":
                     _, lhs, rhs, line = it
-                    if is_field_text(lhs):
+                    if _is_slot(lhs, params):
                         stores.append((i, lhs, rhs, line))
+                        gone.pop(lhs, None)
             for i, lhs, rhs, line in stores:
                 if rhs in ("0", "") or rhs in IMMORTAL:
                     continue
@@ -610,8 +638,16 @@ def replace_order(ctx, res):
         if stores_seen:
             n_sites += 1
             res.instance(fname, facts.loc(fn), field_stores=len(stores_seen))
-            if not found:
+            if not found and not twice:
                 res.oblige(True, fname, "", "")
+        for k, (slot, l1, l2, p) in sorted(twice.items()):
+            res.violation(k, f"{CREL}:{l2}",
+                          f"{fname}: the content of `{slot}` is released at "
+                          f"line {l1} and, without having been replaced, "
+                          f"released again at line {l2}: the reference count "
+                          f"of a live object drops below the number of "
+                          f"references to it (use after free)",
+                          [f"{CREL}:{l}" for l in dict.fromkeys(p.lines) if l])
         for k, (lhs, rhs, rl, sl, p) in sorted(found.items()):
             res.violation(k, f"{CREL}:{rl}",
                           f"{fname}: the old value of `{lhs}` is released "
